@@ -1,6 +1,7 @@
 import Driver.Util
 import Ps3.Model.Viso
 import Ps3.Model.Checked
+import Ps3.Proof.BuildWF
 import Ps3.Spec.Viso
 namespace Driver
 open Ps3 Ps3.Viso
@@ -15,10 +16,8 @@ def maskImage (b : Bytes) (base : Nat) (ps3 : Bool) : Bytes :=
     let hi := min r.2 (base + acc.length)
     if lo < hi then acc.take (lo - base) ++ zeros (hi - lo) ++ acc.drop (hi - base) else acc) b
 
-def contentOf (w : World) (i : Nat) : Content :=
-  match w.inode? i with
-  | some f => f.content
-  | none => { size := 0, seed := 0 }
+/-- the content function of the theorems (`build_wf` is about exactly this one) -/
+def contentOf (w : World) (i : Nat) : Content := Ps3.Proof.BuildWF.cfOf w i
 
 def parseInt (s : String) : Int :=
   if s.startsWith "-" then -(((s.drop 1).toString.toNat?).getD 0 : Nat) else ((s.toNat?).getD 0 : Nat)
